@@ -1,8 +1,9 @@
-"""Discharge obligations: z3 (API) first, cvc5 (CLI, SMT-LIB text) for what z3 leaves open.
+"""Discharge obligations: z3 command line (3 s), z3 Python API in a child process (3 s), cvc5 (10 s), z3 command line (long budget); every solver runs in a process of its own with a hard wall-clock limit.
 
 unsat from either solver = discharged; sat (z3 model) = failed; anything else = undecided.
 """
 import os
+import sys
 import re
 import subprocess
 import tempfile
@@ -246,19 +247,26 @@ def discharge_text(item):
         return {"status": "unsat", "solver": "simplifier", "seconds": 0.0}
     T = item["timeout"]
     first = min(3.0, T)
+    # every z3 *decision* runs through the z3 CLI in a process of its own (hard wall-clock limit: the in-process API has been seen
+    # to ignore timeout, rlimit and interrupt for a quarter of an hour on a false goal); the API is only asked for the model
+    # after the CLI answered `sat`
     if item.get("core_smt2"):
-        st0, _, _ = _run_text(item["core_smt2"], first, None)
-        if st0 == "unsat":
+        if check_sat_text(item["core_smt2"], first) == "unsat":
             return {"status": "unsat", "solver": "z3-5.1.0", "seconds": round(time.time() - t0, 3)}
-    st, extra, why = _run_text(item["smt2"], first, item.get("names"))
+    st, extra, why = check_sat_text(item["smt2"], first), None, ""
     if st == "unsat":
         return {"status": "unsat", "solver": "z3-5.1.0", "seconds": round(time.time() - t0, 3)}
     if st == "sat":
+        st_m, extra, why = _run_text(item["smt2"], max(first, 5.0), item.get("names"))
+        if st_m != "sat":
+            extra = {"model": {}, "model_txt": "<model unavailable from the API within its budget>"}
         if item.get("small_smt2"):
             st2, extra2, _ = _run_text(item["small_smt2"], 3.0, item.get("names"))
             if st2 == "sat":
                 extra = dict(extra2, small_model=True)
         return dict({"status": "sat", "solver": "z3-5.1.0", "seconds": round(time.time() - t0, 3)}, **extra)
+    if api_check_text(item["smt2"], first) == "unsat":
+        return {"status": "unsat", "solver": "z3-5.1.0", "seconds": round(time.time() - t0, 3)}
     res = {"status": "unknown", "solver": "z3-5.1.0", "reason": why}
     if os.environ.get("PYVC_DUMP"):       # debugging aid: keep the undecided query
         with open(os.path.join(os.environ["PYVC_DUMP"], re.sub(r"[^\w.#]", "_", item["id"]) + ".smt2"), "w") as f:
@@ -285,14 +293,41 @@ def discharge_text(item):
     except Exception as e:
         res["cvc5"] = f"error {e}"
     if T > first:
-        st, extra, why = _run_text(item["smt2"], T, item.get("names"))
-        if st == "unsat":
+        # the long attempt runs through the z3 CLI in its own process first: a hard wall-clock limit (the in-process API has been
+        # seen to ignore timeout, rlimit and interrupt for many minutes on false goals over quantified hypotheses)
+        cli = check_sat_text(item["smt2"], T)
+        if cli == "unsat":
             return {"status": "unsat", "solver": "z3-5.1.0", "seconds": round(time.time() - t0, 3)}
+        if cli == "unknown":
+            res["reason"] = (why or "") + " (z3 CLI: no answer within the long budget)"
+            res["seconds"] = round(time.time() - t0, 3)
+            return res
+        # sat: ask the API for the model (the CLI found one within the budget; same time again, watched)
+        st, extra, why = _run_text(item["smt2"], T, item.get("names"))
+        if st != "sat":
+            st, extra = "sat", {"model": {}, "model_txt": "<model unavailable from the API within its budget>"}
         if st == "sat":
             return dict({"status": "sat", "solver": "z3-5.1.0", "seconds": round(time.time() - t0, 3)}, **extra)
         res["reason"] = why
     res["seconds"] = round(time.time() - t0, 3)
     return res
+
+
+def api_check_text(txt, timeout_s=3.0):
+    """The same query through the z3 Python API's default solver, in a child process killed at the limit (see pyvc/apicheck.py)."""
+    import subprocess
+    with tempfile.NamedTemporaryFile("w", suffix=".smt2", delete=False) as f:
+        f.write(txt)
+        path = f.name
+    try:
+        p = subprocess.run([sys.executable, "-m", "pyvc.apicheck", path, str(timeout_s)], capture_output=True, text=True,
+                           timeout=timeout_s + 4, cwd=os.path.dirname(os.path.dirname(os.path.abspath(__file__))))
+        out = p.stdout.strip().splitlines()
+        return out[-1].strip() if out and out[-1].strip() in ("sat", "unsat") else "unknown"
+    except (subprocess.TimeoutExpired, OSError):
+        return "unknown"
+    finally:
+        os.unlink(path)
 
 
 def check_sat_text(txt, timeout_s=3.0):
